@@ -887,6 +887,11 @@ class Multiplexer(utils.EventEmitter):
                 c_r=0 if self.role == Multiplexer.Role.INITIATOR else 1, dlci=0
             )
         )
+        # Our own disconnection, if one is under way, is over too
+        if self.disconnection_result:
+            if not self.disconnection_result.done():
+                self.disconnection_result.set_result(None)
+            self.disconnection_result = None
 
     def on_uih_frame(self, frame: RFCOMM_Frame) -> None:
         (mcc_type, c_r, value) = RFCOMM_Frame.parse_mcc(frame.information)
